@@ -1288,16 +1288,26 @@ class LiteralData(Packet):
         self._contents = bytearray()
 
     def __bytearray__(self):
-        _bytes = bytearray()
-        _bytes += super(LiteralData, self).__bytearray__()
-        _bytes += self.format.encode('latin-1')
-        _bytes += bytearray([len(self.filename)])
-        _bytes += self.filename.encode('latin-1')
+        _body = bytearray()
+        _body += self.format.encode('latin-1')
+        _body += bytearray([len(self.filename)])
+        _body += self.filename.encode('latin-1')
         mtime = calendar.timegm(self.mtime.utctimetuple())
         if mtime >= 1 << 32:
             raise ValueError("literal data time does not fit in four octets")
-        _bytes += self.int_to_bytes(mtime, 4)
-        _bytes += self._contents
+        _body += self.int_to_bytes(mtime, 4)
+        _body += self._contents
+
+        # a literal packet is followed by the signatures made over it, and an old-format header without
+        # a length field (indeterminate length) may only be the last thing of a sequence: one that was
+        # read that way is written with a length field, and the length written is that of this body
+        if self.header._lenfmt == 0 and self.header.llen == 0:
+            self.header.llen = 0  # length type 0: one octet, widened as far as the length needs
+        self.header.length = len(_body)
+
+        _bytes = bytearray()
+        _bytes += super(LiteralData, self).__bytearray__()
+        _bytes += _body
         return _bytes
 
     def __copy__(self):
